@@ -221,3 +221,12 @@ def spec_insert_lexicon(lexicon, cur, progress):
                            base_url=ext.get('url'),
                            base_rowid=ROWID('lexicons', id=ext['id'], version=ext['version']))]))
     return stmts
+
+
+def spec_insert_lexicon_returns(lexicon):
+    """(rowid of the new lexicons row, rowid of the lexicon whose entities an extension refers to): for a lexicon
+    extension the base is the installed lexicon with EXACTLY the id and version named by <Extends>."""
+    lexid = NEWROWID()
+    ext = lexicon.get('extends')
+    extid = ROWID('lexicons', id=ext['id'], version=ext['version']) if ext else lexid
+    return (lexid, extid)
